@@ -37,7 +37,9 @@ use vstd::std_specs::cmp::{OrdSpec, PartialOrdSpec};
 // assumed contract on a std function Verus has no specification for (same text as in varint_arith.rs; listed as trusted)
 pub assume_specification<T: Ord> [core::cmp::max] (a: T, b: T) -> (r: T)
     ensures T::obeys_cmp_spec() ==> r == (if a.cmp_spec(&b) == core::cmp::Ordering::Greater { a } else { b });
-use core::cmp::max;
+pub assume_specification<T: Ord> [core::cmp::min] (a: T, b: T) -> (r: T)
+    ensures T::obeys_cmp_spec() ==> r == (if a.cmp_spec(&b) == core::cmp::Ordering::Greater { b } else { a });
+use core::cmp::{max, min};
 
 pub const K_GRANULARITY: Duration = Duration { ns: 1_000_000 };
 
@@ -70,7 +72,7 @@ impl RttEstimator {
 //@| ensures
 //@|     ret as int == (self.smoothed_rtt.ns as int / 1000 + imax(4 * (self.rttvar.ns as int / 1000), 1000)
 //@|         + (if space == PacketNumberSpace::ApplicationData { self.max_ack_delay.ns as int / 1000 } else { 0 })) * pto_backoff,
-//@^ before "pto_period *= pto_backoff as u64;" :: proof { let full = self.smoothed_rtt.ns as int / 1000 + imax(4 * (self.rttvar.ns as int / 1000), 1000) + self.max_ack_delay.ns as int / 1000; assert(pto_period as int * pto_backoff as int <= full * pto_backoff as int) by (nonlinear_arith) requires 0 <= pto_period as int <= full, pto_backoff as int >= 0; }
+//@^ before "pto_period *=" :: proof { let full = self.smoothed_rtt.ns as int / 1000 + imax(4 * (self.rttvar.ns as int / 1000), 1000) + self.max_ack_delay.ns as int / 1000; assert(pto_period as int * pto_backoff as int <= full * pto_backoff as int) by (nonlinear_arith) requires 0 <= pto_period as int <= full, pto_backoff as int >= 0; }
 
 //@ splice-fn quic/s2n-quic-core/src/recovery/rtt_estimator.rs "RttEstimator" pto_period vis=strip
 //@| requires
@@ -91,5 +93,5 @@ impl RttEstimator {
 //@|     ret.ns as int <= imax(a.ns as int, b.ns as int),
 //@^ after "let mut a = a.as_nanos() as u64;" :: let ghost a0 = a as int;
 //@^ after "let mut b = b.as_nanos() as u64;" :: let ghost b0 = b as int;
-//@^ before "a *= weight - 1;" :: proof { let w = weight as int; assert((a0 / w) * (w - 1) <= a0) by (nonlinear_arith) requires a0 >= 0, w >= 1; }
+//@^ before "a *= weight" :: proof { let w = weight as int; assert((a0 / w) * (w - 1) <= a0) by (nonlinear_arith) requires a0 >= 0, w >= 1; }
 //@^ before "Duration::from_nanos(a + b)" :: proof { let w = weight as int; let m = imax(a0, b0); assert(a0 / w <= m / w) by (nonlinear_arith) requires 0 <= a0 <= m, w >= 1; assert(b0 / w <= m / w) by (nonlinear_arith) requires 0 <= b0 <= m, w >= 1; assert((m / w) * w <= m) by (nonlinear_arith) requires m >= 0, w >= 1; assert((a0 / w) * (w - 1) <= (m / w) * (w - 1)) by (nonlinear_arith) requires 0 <= a0 / w <= m / w, w >= 1; assert((m / w) * (w - 1) + m / w == (m / w) * w) by (nonlinear_arith); }
